@@ -494,27 +494,31 @@ def arms(e):
     return [e]
 
 
-def guards_of(node, stop=None):
+def guards_of(node, stop=None, fn=None):
     """[(condition source text, truth value)] of the if statements / conditional expressions that enclose `node`
-    (innermost first), negations folded"""
+    (innermost first), negations folded; with fn given, locals of fn that are assigned once read as their value"""
     out = []
     child = node
+    if fn is not None:
+        _fold = lambda t, v: _fold_not(resolve_deep(fn, t, 2), v)
+    else:
+        _fold = _fold_not
     for a in ancestors(node):
         if a is stop:
             break
         if isinstance(a, ast.If):
             if any(contains(b, child) for b in a.body):
-                t, v = _fold_not(a.test, True)
+                t, v = _fold(a.test, True)
                 out.append((src(t), v))
             elif any(contains(b, child) for b in a.orelse):
-                t, v = _fold_not(a.test, False)
+                t, v = _fold(a.test, False)
                 out.append((src(t), v))
         elif isinstance(a, ast.IfExp):
             if contains(a.body, child):
-                t, v = _fold_not(a.test, True)
+                t, v = _fold(a.test, True)
                 out.append((src(t), v))
             elif contains(a.orelse, child):
-                t, v = _fold_not(a.test, False)
+                t, v = _fold(a.test, False)
                 out.append((src(t), v))
         child = a
         if isinstance(a, (ast.FunctionDef, ast.Lambda)):
